@@ -510,7 +510,14 @@ func enumerateSchemas(thorough bool) []SchemaPlan {
 	add(full, 0, 0, ConfigPlan{}, small)
 	add(full, 1, 0, ConfigPlan{Dom: 0, Null: true, MaxRep: 3}, small)
 	add(full, 2, 1, ConfigPlan{Dom: 2, Null: true, Few: true, MaxRep: 3, Faults: 1}, two)
-	add(fullAlphabet(false), 3, 2, ConfigPlan{Dom: 2, Few: true, MaxRep: 2, Select: 1, Faults: 2}, big)
+	// (the four-label block types take part in the schemas of one and two items)
+	var triples []Kind
+	for _, k := range fullAlphabet(false) {
+		if k.NLabels < 4 {
+			triples = append(triples, k)
+		}
+	}
+	add(triples, 3, 2, ConfigPlan{Dom: 2, Few: true, MaxRep: 2, Select: 1, Faults: 2}, big)
 	add(core, 3, 2, ConfigPlan{Dom: 2, Few: true, MaxRep: 3, Select: 2, Faults: 2}, big)
 	add(core, 4, 2, ConfigPlan{Dom: 2, Few: true, MaxRep: 2, Select: 1, Faults: 2}, big)
 	return out
